@@ -164,6 +164,18 @@ func authJ(v any) string {
 	}
 }
 
+// didDocJV: the value under "didDocument" of a resolver answer
+func didDocJV(v any, present bool) string {
+	if !present || v == nil {
+		return "(mkdiddocj true [] [])"
+	}
+	m, ok := v.(map[string]any)
+	if !ok {
+		return "(mkdiddocj false [] [])"
+	}
+	return didDocJ(m)
+}
+
 // didDocJ renders `diddocj` for a DID document (not the resolver envelope).
 func didDocJ(doc map[string]any) string {
 	var vms, auths []string
